@@ -487,6 +487,20 @@ example : denialExpiry (10800 * sec) 0 (3600 * sec) (some (5 * sec)) [300 * sec,
 /-- the tree's hard ceiling for synthesized denials is the model driver's (3 h) -/
 theorem denial_ceiling_is_3h : (SdnsVerif.Gen.C08.max_denial_proof_ttl_ns : Int) ≤ 10800 * sec := by decide
 
+/-- **stored_cut_bounds_entry.** Whatever route wrote an answer-cache entry (client path,
+resolver sub-query, ECS-scoped key with or without a TTL cap, background refresh claimed
+by any client), the entry it leaves carries the cut it was handed, and therefore — by
+`remaining` — is expired from that cut on whatever TTL (or cap) it was stored with. -/
+theorem stored_cut_bounds_entry (cut : Int) (key : Nat) (stored ttl t : Int) :
+    (storeCut (some cut) key).1 = some cut ∧
+    remaining stored ttl (storeCut (some cut) key).1 t ≤ cut - t ∧
+    (cut ≤ t → remaining stored ttl (storeCut (some cut) key).1 t ≤ 0) := by
+  have h : remaining stored ttl (some cut) t ≤ cut - t := by unfold remaining; simp only; split <;> omega
+  exact ⟨rfl, h, fun hc => by have := h; simp only [storeCut]; omega⟩
+
+example : storeCut (some (30 * sec)) 7 = (some (30 * sec), 7) ∧
+    remaining 0 (3600 * sec) (storeCut (some (30 * sec)) 7).1 (30 * sec) = 0 := by decide
+
 /-- **refresh_keeps_cut.** Whatever a background refresh writes back —
 positive answer, NXDOMAIN, NODATA or SERVFAIL — the replacement entry carries
 exactly the cut of the refresh's own resolution (never none when that is bounded),
